@@ -81,6 +81,15 @@ def handle (toks : List String) : String :=
         match decWs ws, decAe ae, entry.cps?, decSources files with
         | some ws, some ae, some entry, some srcs => ok (encOutcome true (compile ⟨ws, ae⟩ srcs entry))
         | _, _, _, _ => err "bad-arg"
+      | "compileseq", [ws, ae, names, files] =>
+        match decWs ws, decAe ae, names.list? >>= (·.mapM V.cps?), decSources files with
+        | some ws, some ae, some names, some srcs =>
+          ok ((compileSeq ⟨ws, ae⟩ srcs names []).map (fun o => V.list (encOutcome true o)))
+        | _, _, _, _ => err "bad-arg"
+      | "resolve", [name, parent] =>
+        match name.cps?, (if parent.isNone then some none else parent.cps?.map some) with
+        | some n, some p => ok [V.ofCps (resolvePath n p)]
+        | _, _ => err "bad-arg"
       | "render", [ws, ae, entry, files, envv] =>
         match decWs ws, decAe ae, entry.cps?, decSources files, decEnv envv with
         | some ws, some ae, some entry, some srcs, some env =>
